@@ -52,6 +52,8 @@ REG.contract(
     raises=[("builtins.ValueError", "len(rdata.other) > 65535"),
             ("builtins.NotImplementedError", f"{_FIRST}", "may")],
     returns=CTX,
+    modifies={"ctx.ghost_data": T.bytes},
+    result_alias=[(f"not {_FIRST}", "ctx")],
     ensures=[
         f"(not {_FIRST}) or result.ghost_data == {_RM} + {_COMMON} + {_VARS_FIRST}",
         f"{_FIRST} or (result is ctx and result.ghost_data == old_ctx.ghost_data + {_COMMON} + {_VARS_LATER})",
@@ -71,4 +73,50 @@ REG.contract(
     ensures=["(not multi) or result.ghost_data == be(len(mac), 2) + mac", "multi or result is None"],
     props=["C14"],
     note="multi-message chaining: the next context is primed with the length-prefixed MAC of the message just processed",
+)
+
+# ----------------------------------------------------------------------------- validate: the order and exactness of the checks
+
+
+def NAME_EQ(a, b):
+    """the names a and b are equal: same number of labels, labels equal up to ASCII case"""
+    from contracts.name import LAB
+
+    return f"(len({a}.labels) == len({b}.labels) and all({LAB(a, 'm')} == {LAB(b, 'm')} for m in range(len({a}.labels))))"
+
+
+REG.contract(
+    "dns.tsig.HMACTSig.verify",
+    params={"self": CTX, "expected": T.bytes},
+    raises=[("dns.tsig.BadSignature", "True", "may")],
+    status="assumed", props=["C14"],
+    note="ASSUMED (A-crypto): verify() compares the HMAC of what was digested with the given MAC and raises BadSignature on a mismatch",
+)
+_TSIGRD2 = T.obj("dns.rdtypes.ANY.TSIG.TSIG", algorithm=NAME, mac=T.bytes)
+_ADC = "(wire[10] * 256 + wire[11])"
+_PEER = {16: "PeerBadSignature", 17: "PeerBadKey", 18: "PeerBadTime", 22: "PeerBadTruncation"}
+_NOERR = f"({_ADC} != 0 and rdata.error == 0)"
+_INWIN = "((rdata.time_signed - now if rdata.time_signed >= now else now - rdata.time_signed) <= rdata.fudge)"
+REG.contract(
+    "dns.tsig.validate",
+    params={"wire": T.bytes, "key": KEY, "owner": NAME, "rdata": _TSIGRD2, "now": T.range(0, 2**48 - 1),
+            "request_mac": T.opt(T.bytes), "tsig_start": T.int, "ctx": T.opt(CTX), "multi": T.oneof(None, False, True)},
+    requires=[ISABS("key.name"), ISABS("key.algorithm"), "request_mac is None or len(request_mac) <= 65535",
+              "12 <= tsig_start and tsig_start <= len(wire)", "len(rdata.mac) <= 65535", "len(rdata.other) <= 65535"],
+    raises=[
+        ("dns.exception.FormError", f"{_ADC} == 0"),
+    ] + [(f"dns.tsig.{n}", f"{_ADC} != 0 and rdata.error == {c}") for c, n in _PEER.items()] + [
+        ("dns.tsig.PeerError", f"{_ADC} != 0 and rdata.error != 0", "may"),
+        # the signing time must lie within the fudge window on *both* sides of the validator's clock
+        ("dns.tsig.BadTime", f"{_NOERR} and not {_INWIN}"),
+        ("dns.tsig.BadKey", f"{_NOERR} and {_INWIN} and not ({NAME_EQ('key.name', 'owner')})"),
+        ("dns.tsig.BadAlgorithm", f"{_NOERR} and {_INWIN} and ({NAME_EQ('key.name', 'owner')}) and not ({NAME_EQ('key.algorithm', 'rdata.algorithm')})"),
+        ("dns.tsig.BadSignature", "True", "may"),
+        ("builtins.NotImplementedError", "True", "may"),
+    ],
+    returns=T.opt(CTX),
+    props=["C14"],
+    note="validate: FormError without an additional record; the peer's error code is reported; BadTime exactly when the "
+         "signing time is outside the fudge window (either side); then key name, then algorithm (case-insensitively), and only "
+         "then the MAC over _digest's components is checked",
 )
